@@ -155,7 +155,25 @@ def range_rule(ctx, r, F):
     else:
         ps = cmpmodel.ret_paths(b)
         got = n(ps[0].ret) if len(ps) == 1 else None
-        ctx.ob(r, ("LengthEncoding::is_valid", "lt-170"), got == ("bin", "Lt", lv, C(170)), "is_valid is %s; reference value < 170" % (sym.fmt(got) if got else got), cfg=F.key, where=b.where())
+        ok_ = got == ("bin", "Lt", lv, C(170))
+        why_ = "is_valid is %s" % (sym.fmt(got) if got else got)
+        if not ok_:
+            # any other spelling: the predicate evaluated on all 256 codes
+            from .. import evalx
+            from .c17 import table_values
+            evalx.set_target(F)
+            S_ = sym.Sym(b)
+            try:
+                wrong = []
+                for v_ in range(256):
+                    r_ = evalx.run(S_, F, S_.paths(), {"symbolic": True, "params": {1: ("obj", "self")}, "fields": {("fld", ("obj", "self"), 0): v_}}, lambda t_: table_values(F, t_))
+                    if r_ != int(v_ < 170):
+                        wrong.append(v_)
+                ok_ = not wrong
+                why_ = "is_valid is wrong for codes %s" % wrong[:5]
+            except (evalx.Unknown, evalx.Panics) as ex:
+                why_ += " (cannot evaluate: %s)" % ex
+        ctx.ob(r, ("LengthEncoding::is_valid", "lt-170"), ok_, "%s; reference value < 170" % why_, cfg=F.key, where=b.where())
     b = F.fn("length::FuzzyHashLengthEncoding::range")
     ctx.instance(r)
     if b is None:
